@@ -216,7 +216,7 @@ def permuted_expectation(name, val, p, k):
     return val[p]
 
 
-def check_permutations(findings, build, base_out, k, test_types, perms, case):
+def check_permutations(findings, build, base_out, k, test_types, perms, case, boot_class=''):
     """clause f on the implementation: rebuild the Result for the reordered models, compare all outputs"""
     n = 0
     for ip, p in enumerate(perms):
@@ -238,9 +238,49 @@ def check_permutations(findings, build, base_out, k, test_types, perms, case):
             exp = permuted_expectation(name, val, p, k)
             tol = PTOL if name.startswith('p_') else 1e-11
             if got.shape != exp.shape or not np.allclose(got, exp, rtol=tol, atol=tol, equal_nan=True):
-                findings.append((f'C06/f/permute/{name}', f'{name} is not permuted with the models',
+                suffix = boot_class if name == 'p_pair/bootstrap' else ''
+                findings.append((f'C06/f/permute/{name}{suffix}', f'{name} is not permuted with the models',
                                  {**case, 'perm': list(p), 'got': got.tolist(), 'expected': exp.tolist()}))
     return n
+
+
+def per_sample(ev):
+    """samples x models: what the bootstrap tests compare (NaN-aware mean over the trailing axes)"""
+    with warnings.catch_warnings(), np.errstate(all='ignore'):
+        warnings.simplefilter('ignore')
+        x = np.asarray(ev, dtype=float)
+        while x.ndim > 2:
+            x = np.nanmean(x, axis=-1)
+    return x
+
+
+def boot_pair_class(ev):
+    """key suffix for failures of the pairwise bootstrap test: '' = the array holds NaN samples (known
+    open finding on this tree), '/ties' = no NaN, two models tie exactly in some sample, '/plain' = neither"""
+    x = per_sample(ev)
+    if np.isnan(x).any():
+        return ''
+    k = x.shape[1]
+    if any(np.any(x[:, i] == x[:, j]) for i, j in pair_index(k)):
+        return '/ties'
+    return '/plain'
+
+
+def check_boot_pair_value(findings, p_pair, ev, case):
+    """docstring of bootstrap_pair_tests: two-sided, 2 * the smaller proportion, 1/N added (shrunk by
+    (N-1)/N).  The docstring says nothing about ties or NaN samples: compared only on arrays without either."""
+    if isinstance(p_pair, Exception) or boot_pair_class(ev) != '/plain':
+        return 0
+    x = per_sample(ev)
+    n, k = x.shape
+    for i, j in pair_index(k):
+        prop = np.sum(x[:, i] < x[:, j]) / n
+        e = (n - 1) / n * 2 * min(prop, 1 - prop) + 1 / n
+        if abs(p_pair[i, j] - e) > 1e-12 or abs(p_pair[j, i] - e) > 1e-12:
+            findings.append(('C06/d/value/bootstrap/pair', f'pairwise bootstrap p {p_pair[i, j]!r}, documented '
+                             f'2 * smaller proportion with 1/N added: {e!r}', case))
+            break
+    return 1
 
 
 def some_perms(k, idx, cap=3):
@@ -282,6 +322,12 @@ def evaluations_for(idx, k):
         shape, cvm = (5, k, 4), CV2[mix(idx, 2, len(CV2))]
     ev = rng.integers(-6, 9, size=shape) / 8.0
     ev += (np.arange(k) * 0.173).reshape((1, k) + (1,) * (len(shape) - 2))   # no two identical models
+    if lay >= 1 and k >= 2 and mix(idx, 7, 2) == 1:
+        # exact ties between two models in a subset of the samples (rank-based measures with few conditions,
+        # nested models): wins and losses stay unequal in general, the models never identical
+        a, b = sorted(rng.choice(k, 2, replace=False).tolist())
+        tied = rng.choice(shape[0], int(rng.integers(1, shape[0] - 1)), replace=False)
+        ev[tied, b] = ev[tied, a]
     return ev, cvm, lay
 
 
@@ -383,8 +429,10 @@ def check_var(rec, idx, heavy=True):
         q = st.t.ppf(0.95, dof)
         if not np.allclose(base['ci_high'] - mm, base['sem'] * q, rtol=1e-9, atol=1e-12):
             findings.append(('C06/e/ci/halfwidth', 'get_ci half width is not SEM times the t quantile', case))
+    if 'bootstrap' in test_types:
+        nev += check_boot_pair_value(findings, base['p_pair/bootstrap'], ev, {**case, 'evaluations': ev.tolist()})
     nev += check_permutations(findings, build, base, k, test_types, some_perms(k, idx),
-                              {**case, 'evaluations': ev.tolist(), 'cv_method': cvm})
+                              {**case, 'evaluations': ev.tolist(), 'cv_method': cvm}, boot_pair_class(ev))
     return findings, nev
 
 
@@ -441,7 +489,9 @@ def check_means(rec, idx, heavy=True):
         relational(findings, base[f'_tests/{tt}'], tt, {**case, 'noise_ceiling': noise.tolist()},
                    identical_pairs=ident if tt == 'bootstrap' else ())
         nev += 4
-    nev += check_permutations(findings, build, base, k, test_types, some_perms(k, idx), case)
+    if 'bootstrap' in test_types:
+        nev += check_boot_pair_value(findings, base['p_pair/bootstrap'], ev, case)
+    nev += check_permutations(findings, build, base, k, test_types, some_perms(k, idx), case, boot_pair_class(ev))
     return findings, nev
 
 
